@@ -38,11 +38,14 @@ enum { K_PLAIN, K_REF, K_BOX, K_ARRAY, K_LIST, K_TABLE, K_TREE, K_TUPLE,
        K_ARRAY_CV, K_LIST_CV, K_TABLE_CV, K_TREE_CV,
        /* a plain struct with two reference fields whose type ALSO implements C_Int, C_Float, C_Str, Cmp, Hash and Show: what a
        ** type converts to says nothing about what it refers to */
-       K_PLAIN_CONV, K_N };
-static const char KLET[] = "prbaltTuSVHhALPQqCcX";
+       K_PLAIN_CONV,
+       /* a heap Tuple that holds NULL as its first item and its references behind it (a Tuple holds whatever it was given;
+       ** an empty slot is no edge, and marking has to get past it) */
+       K_TUPLE_N, K_N };
+static const char KLET[] = "prbaltTuSVHhALPQqCcXN";
 static const char* KNAME[] = { "plain", "Ref", "Box", "Array", "List", "Table", "Tree", "Tuple",
   "Tree<tag4,Ref>", "Tree<Ref,tag4>", "Table<tag4,Ref>", "Table<Ref,tag4>", "Array<struct>", "List<struct>", "Tree<Int,struct>",
-  "Array<Int>:=Array<Ref>", "List<Int>:=List<Ref>", "Table<Int,Int>:=Table<Ref,Ref>", "Tree<Int,Int>:=Tree<Ref,Ref>", "plain-with-conversions" };
+  "Array<Int>:=Array<Ref>", "List<Int>:=List<Ref>", "Table<Int,Int>:=Table<Ref,Ref>", "Tree<Int,Int>:=Tree<Ref,Ref>", "plain-with-conversions", "Tuple-with-NULL-item" };
 static int base_kind(int k) { return k == K_ARRAY_CV ? K_ARRAY : k == K_LIST_CV ? K_LIST : k == K_TABLE_CV ? K_TABLE : k == K_TREE_CV ? K_TREE : k == K_PLAIN_CONV ? K_PLAIN : k; }
 struct PlainC { var a; var b; uint64_t canary; };
 static int64_t PlainC_C_Int(var self) { return 7; }
@@ -135,6 +138,7 @@ static var alloc_node(int kind, int as_root) {
   case K_TABLE: return as_root ? (var)new_root(Table, Ref, Ref) : (var)new(Table, Ref, Ref);
   case K_TREE:  return as_root ? (var)new_root(Tree, Ref, Ref) : (var)new(Tree, Ref, Ref);
   case K_TUPLE: return as_root ? (var)new_root(Tuple) : (var)new(Tuple);
+  case K_TUPLE_N: { var c = as_root ? (var)new_root(Tuple) : (var)new(Tuple); push(c, NULL); return c; }
   case K_TREE_SK:  return as_root ? (var)new_root(Tree, Tag4, Ref) : (var)new(Tree, Tag4, Ref);
   case K_TREE_SV:  return as_root ? (var)new_root(Tree, Ref, Tag4) : (var)new(Tree, Ref, Tag4);
   case K_TABLE_SK: return as_root ? (var)new_root(Table, Tag4, Ref) : (var)new(Table, Tag4, Ref);
@@ -168,7 +172,7 @@ static void __attribute__((noinline)) build(struct shape* s) {
     case K_TABLE: case K_TREE:
       for (int k = 0; k < d; k += 2) set(N[i], $R(N[t[k]]), $R(k + 1 < d ? N[t[k + 1]] : NULL));
       break;
-    case K_TUPLE: for (int k = 0; k < d; k++) push(N[i], N[t[k]]); break;
+    case K_TUPLE: case K_TUPLE_N: for (int k = 0; k < d; k++) push(N[i], N[t[k]]); break;
     case K_TREE_SK: case K_TABLE_SK: for (int k = 0; k < d; k++) set(N[i], TAG(k), $R(N[t[k]])); break;
     case K_TREE_SV: case K_TABLE_SV: for (int k = 0; k < d; k++) set(N[i], $R(N[t[k]]), TAG(k)); break;
     case K_ARRAY_P: case K_LIST_P: for (int k = 0; k < d; k += 2) push(N[i], $(Plain, N[t[k]], k + 1 < d ? N[t[k + 1]] : NULL, CANARY)); break;
@@ -232,6 +236,10 @@ static const char* verify_node(struct shape* s, int i) {
   case K_TUPLE:
     if (len(x) != (size_t)d) return "contents-corrupted";
     for (int k = 0; k < d; k++) if (get(x, $I(k)) != N[t[k]]) return "contents-corrupted";
+    return NULL;
+  case K_TUPLE_N:
+    if (len(x) != (size_t)d + 1 || get(x, $I(0)) != NULL) return "contents-corrupted";
+    for (int k = 0; k < d; k++) if (get(x, $I(k + 1)) != N[t[k]]) return "contents-corrupted";
     return NULL;
   case K_TREE_SK: case K_TABLE_SK:
     if (len(x) != (size_t)d) return "contents-corrupted";
